@@ -23,7 +23,7 @@ fn main() {
     comp::install_panic_hook();
     // deep nom recursion on generated inputs must not overflow the worker threads' stacks
     let args: Vec<String> = std::env::args().skip(1).collect();
-    if args.first().map(|s| s.as_str()) != Some("worker") {
+    if !matches!(args.first().map(|s| s.as_str()), Some("worker") | Some("c20-child")) {
         let _ = rayon::ThreadPoolBuilder::new().stack_size(128 << 20).build_global();
     }
     if args.is_empty() {
